@@ -45,11 +45,12 @@ ASSUMPTIONS = [
 REACH = {t: ["versions_11", "enq_accepted", "enq_busy_then_ok", "enq_busy_exhausted", "enq_refused", "conf_success",
              "conf_fail", "conf_none", "conf_duplicate", "conf_other_tag", "conf_other_dest", "conf_unsolicited",
              "conf_before_reply", "conf_late", "setup_overlap_attempted", "kind_mcast", "kind_bcast", "kind_ieee",
-             "kind_uni_sr_et", "v14_layout", "pending_empty_checked", "status_family_swept"] for t in ("quick", "thorough")}
+             "kind_uni_sr_et", "v14_layout", "pending_empty_checked", "status_family_swept", "conf_foreign_of_every_message_type"] for t in ("quick", "thorough")}
 SHARD_TIMEOUT = {"quick": 900, "thorough": 3600}
 
 ENQ = ["ok", "busy_max", "busy_net", "busy_buf", "ref_call", "ref_down", "ref_undef"]
-CONF = ["success", "fail", "none", "duplicate", "other_tag", "other_dest", "unsolicited", "before_reply", "late"]
+CONF = ["success", "fail", "none", "duplicate", "other_tag", "other_dest", "unsolicited", "before_reply", "late",
+        "foreign_types_then_fail", "foreign_types_fail_then_success"]
 KINDS = ["uni", "uni_sr", "uni_et", "uni_sr_et", "ieee", "mcast", "bcast"]
 EMBER_ST = dict(ok=0x00, busy_max=0x72, busy_net=0xA1, busy_buf=0x18, ref_call=0x70, ref_down=0x91, ref_undef=0x77, fail=0x66)
 SL_ST = dict(ok=0x0000, busy_max=0x0C03, busy_net=0x0034, busy_buf=0x0019, ref_call=0x0002, ref_down=0x0016, ref_undef=0x7777, fail=0x0C01)
@@ -95,9 +96,9 @@ def expected(req, APS_T, NRETRY):
     if req["kind"] in ("mcast", "bcast"):
         return "ret", "no-confirmation-needed"
     c = req["conf"]
-    if c in ("success", "duplicate", "unsolicited", "before_reply"):
+    if c in ("success", "duplicate", "unsolicited", "before_reply", "foreign_types_fail_then_success"):
         return "ret", "confirmed"
-    if c in ("fail", "fail_rand"):
+    if c in ("fail", "fail_rand", "foreign_types_then_fail"):
         return "DeliveryError", "confirmed-failure"
     return "TimeoutError", "no-own-confirmation"
 
@@ -218,10 +219,10 @@ def run_shard(desc) -> Acc:
                     r["accepted_at"] = now
                     c = r["conf"]
 
-                    def conf(dest, tag, status, dly):
+                    def conf(dest, tag, status, dly, mtype=0):
                         # callbacks carry the sequence of the last *completed* command
                         cseq = seq if dly > 0.0 else (seq - 1) % 256
-                        fr = enc_message_sent(V, cseq, 0, dest, p["aps"], tag, status, b"")
+                        fr = enc_message_sent(V, cseq, mtype, dest, p["aps"], tag, status, b"")
                         loop.io_at(now + dly, lambda: (cur["confs"].append((clock(), dest, tag, status)), n._deliver_now(fr)))
 
                     if c == "success":
@@ -246,6 +247,16 @@ def run_shard(desc) -> Acc:
                         delay_reply = 0.05
                     elif c == "late":
                         conf(p["dest"], p["tag"], ST["ok"], APS_T + 1.0)
+                    elif c in ("foreign_types_then_fail", "foreign_types_fail_then_success"):
+                        # confirmations of every outgoing-message type (for the table / binding types the
+                        # NCP reports a table index in the destination field) that carry this request's
+                        # tag but another destination value: none of them is this request's own
+                        first = ST["ok"] if c == "foreign_types_then_fail" else ST["fail"]
+                        for j_, mt_ in enumerate((1, 2, 0, 3, 6, 4, 5, 0x42)):
+                            other = (p["dest"] ^ 0x0100) if j_ % 2 else (j_ if j_ != p["dest"] else 0x00F0)
+                            conf(other, p["tag"], first, 0.01 + 0.002 * j_, mt_)
+                        conf(p["dest"], p["tag"], ST["fail"] if c == "foreign_types_then_fail" else ST["ok"], 0.05)
+                        acc.hit("conf_foreign_of_every_message_type")
                 elif st == "ok":
                     r["accepted_at"] = now
                 if delay_reply:
